@@ -1,3 +1,3 @@
 From Coq Require Import List NArith ZArith ExtrOcamlBasic.
 From WV Require Import Lib.PyBytes Model.Buffers Spec.Fifo.
-Extraction "model.ml" step o_new o_len rep_of ro_init ro_prepare ro_step fb_close fb_len q_step q_empty N.add N.mul.
+Extraction "model.ml" step_f step o_new o_len rep_of ro_init ro_prepare ro_step fb_close fb_len q_step q_empty N.add N.mul.
